@@ -51,7 +51,7 @@ class Outcome:
     def __init__(self, evals=1, nontrivial=False, labels=(), violations=None, skip=None, sample=None):
         self.evals = evals
         self.nontrivial = nontrivial
-        self.labels = list(labels)
+        self.labels = labels if isinstance(labels, list) else list(labels)
         self.violations = violations or []
         self.skip = skip
         self.sample = sample
